@@ -71,7 +71,7 @@ def heavy(c):
 def choose(classes, quick, seed):
     """Which class representatives get a `cargo check` (deterministic given the seed)."""
     rnd = random.Random(seed * 7919 + 35)
-    caps = {"incoh": 8, "touch": 12, "unsup": 1, "other": 10} if quick else {"incoh": 24, "touch": 40, "unsup": 3, "other": 60}
+    caps = {"incoh": 4, "touch": 9, "unsup": 1, "other": 8} if quick else {"incoh": 16, "touch": 30, "unsup": 2, "other": 40}
     groups = {"incoh": [], "touch": [], "unsup": [], "other": []}
     for c in classes:
         g = "incoh" if not c["coherent"] else "unsup" if not c["supported"] else "touch" if c["touches"] else "other"
@@ -323,7 +323,7 @@ def _run(chk, repo, host, meta, ws_names, replay):
         if not any(len(c["sel"]) > 1 for c in classes):
             raise core.ToolError("no multi-crate downstream selection was generated (package names changed?)")
         to_check = choose(classes, chk.quick, chk.seed)
-        tree_cap = len(classes) if chk.quick else 400
+        tree_cap = len(classes) if chk.quick else 300
         rest = [c for c in classes if c not in to_check]
         random.Random(chk.seed * 31 + 5).shuffle(rest)
         to_tree = sorted(to_check + rest[:max(0, tree_cap - len(to_check))], key=lambda c: c["cls"])
@@ -401,6 +401,7 @@ def _run(chk, repo, host, meta, ws_names, replay):
         if "units" in c:
             rec["units"] = c["units"]
             rec["predicted_coherent"] = c["coherent"]
+            rec["declared_supported"] = c["supported"]
         t = tree_by.get(c["cls"], {})
         if "tree" in t:
             rec["tree"] = t["tree"]
@@ -461,7 +462,7 @@ def _run(chk, repo, host, meta, ws_names, replay):
     for r in [x for x in ran if x["cargo"]["status"] == "fail"][:2] + [x for x in ran if x["cargo"]["status"] == "ok"][:3]:
         chk.sample({"selection": r["label"], "unit_features": {"%s@%s" % (u["p"], u["d"]): ",".join(f for f in u["fs"] if not f.startswith("dep:"))
                                       for u in r.get("units", r.get("tree", []))},
-                    "predicted_coherent": r.get("predicted_coherent"), "cargo_ok": r["cargo"]["status"] == "ok", "first_error": r["cargo"]["err"]})
+                    "predicted_coherent": r.get("predicted_coherent", ""), "declared_supported": r.get("declared_supported", ""), "cargo_ok": r["cargo"]["status"] == "ok", "first_error": r["cargo"]["err"]})
     if offline:
         chk.notes.append("unbuildable offline (not a violation): " + "; ".join(offline[:10]))
     chk.assumptions += ["whether source compiles is cargo's verdict; the specification supplies the configuration space, the classes and the explanation of a failure",
